@@ -38,6 +38,7 @@ fn s(name: &'static str, f: fn(&mut Ctx) -> VResult, quick: u64, thorough: u64) 
 pub fn all() -> Vec<PropDef> {
     let mut v = Vec::new();
     v.push(PropDef {
+        miri: None,
         id: "C01", level: "exploration", driver: "D1 caller-schedule simulator (sync request parser)",
         scens: vec![s("preamble", d1req::c01, 180_000, 6_000_000)],
         rule: "each run = one seeded preamble (id/role/flags, pair list from the boundary classes, Params cut into records with biased cuts, padding, noise records, buffer size >= longest pair + 13) parsed under 3 independently chosen read schedules and compared with the one-shot reference model M-preamble; distinct = distinct (event-kind skeleton, event digest) pair; non-trivial = the run took at least one non-default schedule alternative (a second chunk style) or contained noise/fault records",
@@ -45,6 +46,7 @@ pub fn all() -> Vec<PropDef> {
         real: REAL_SYNC.to_vec(), stub: STUB_SYNC.to_vec(),
     });
     v.push(PropDef {
+        miri: None,
         id: "C02", level: "exploration", driver: "D1 caller-schedule simulator (sync stream parser behind a real hand-off)",
         scens: vec![s("stream", c02, 120_000, 4_000_000)],
         rule: "each run = one seeded request whose preamble is parsed by the real request parser, then a chooser-driven schedule of parse(dest Some/None)/consume_stream/compress/consume_output/set_stream over compliant stream records with noise; every delivered byte compared with M-stream at its offset; distinct = distinct (skeleton, digest); all runs are non-trivial (each contains schedule alternatives)",
@@ -52,6 +54,7 @@ pub fn all() -> Vec<PropDef> {
         real: REAL_SYNC.to_vec(), stub: STUB_SYNC.to_vec(),
     });
     v.push(PropDef {
+        miri: None,
         id: "C04", level: "exploration", driver: "D1 caller-schedule simulator (both sync parsers)",
         scens: vec![s("preamble_replies", d1req::c04_req, 120_000, 4_000_000), s("stream_replies", c02, 75_000, 2_500_000), s("chain_replies", d1stream::c05, 30_000, 1_000_000)],
         rule: "each run = seeded traffic dense in reply-eliciting records (GetValues bodies of all kinds, unknown types, foreign/unknown-role BeginRequest, aborts during Params) under a seeded chunking with consume_output interleaved; emitted bytes compared for prefix at every step and equality at quiescence with the model's reply list; non-trivial = at least one reply owed",
@@ -59,6 +62,7 @@ pub fn all() -> Vec<PropDef> {
         real: REAL_SYNC.to_vec(), stub: STUB_SYNC.to_vec(),
     });
     v.push(PropDef {
+        miri: None,
         id: "C05", level: "exploration", driver: "D1 caller-schedule simulator (conversion chain)",
         scens: vec![s("chain", d1stream::c05, 120_000, 4_000_000), s("preamble_leftover", d1req::c01, 45_000, 1_500_000)],
         rule: "each run = k in 1..4 sequential requests on one wire driven through request parser -> stream parser -> request parser ... with one shared buffer, seeded look-ahead at each hand-off and seeded stop points of the reader; leftovers compared with the unread suffix of the fed bytes, environments and stream contents with per-request models",
@@ -66,6 +70,7 @@ pub fn all() -> Vec<PropDef> {
         real: REAL_SYNC.to_vec(), stub: STUB_SYNC.to_vec(),
     });
     v.push(PropDef {
+        miri: None,
         id: "C06", level: "exploration", driver: "D1 caller-schedule simulator (configurations)",
         scens: vec![s("bound", d1req::c06, 180_000, 5_000_000)],
         rule: "each run = one configured buffer size (0..64 dense, residues around 4 KiB/8 KiB/64 KiB/1 MiB, random to 70000) with a preamble whose critical pair has name+value = B-13 (asserted to parse), B-12..B-8 (recorded) or > B (must end in StuckOnInput or parse), under seeded chunking incl. exact-fill reads; after every parse() with done == false the input buffer must be non-empty; effective size checked against max(24, ceil8(size)) on a 20-value slice per run",
@@ -73,6 +78,7 @@ pub fn all() -> Vec<PropDef> {
         real: REAL_SYNC.to_vec(), stub: STUB_SYNC.to_vec(),
     });
     v.push(PropDef {
+        miri: None,
         id: "C18", level: "exploration", driver: "D1 caller-schedule simulator + exhaustive selection table",
         scens: vec![
             Scen { name: "table", f: d1stream::c18_table, quick: 1, thorough: 1, exhaustive: true },
@@ -83,6 +89,7 @@ pub fn all() -> Vec<PropDef> {
         real: REAL_SYNC.to_vec(), stub: STUB_SYNC.to_vec(),
     });
     v.push(PropDef {
+        miri: None,
         id: "C03", level: "exploration", driver: "D1 caller-schedule simulator (both sync parsers, hostile input)",
         scens: vec![s("request_parser", d1c03::c03_req, 180_000, 6_000_000), s("stream_parser", d1c03::c03_stream, 120_000, 4_000_000)],
         rule: "each run = one hostile byte string (uniformly random, or valid traffic under 1..3 structured mutations: version/type/length/padding/id flips, truncation, splices, name-value lengths up to 2^31-1, BeginRequest with wrong length / id 0 / unknown role) run under 3 (request parser) or 2 (stream parser) independent schedules with every call under catch_unwind (debug assertions and overflow checks on), repeated calls after the final state and conversions on clones; outcome compared across schedules and with the reference models",
@@ -90,6 +97,7 @@ pub fn all() -> Vec<PropDef> {
         real: REAL_SYNC.to_vec(), stub: STUB_SYNC.to_vec(),
     });
     v.push(PropDef {
+        miri: None,
         id: "C20", level: "fault_enumeration", driver: "D4 sink simulator (fault-injecting io::Write)",
         scens: vec![s("sink", d4::c20, 20_000, 600_000)],
         rule: "each run = 9 consecutive status codes (all 900 codes are covered by the batch) x one seeded header list / location; for every response EVERY sink capacity 0..=len+1 is enumerated with a seeded per-call behaviour script (accept all / short write of 1..12 bytes / Interrupted) and both full-sink modes (Ok(0) like &mut [u8], or an error), plus bounded &mut [u8] destinations; distinct = distinct (skeleton, digest); non-trivial = at least one injected sink fault fired",
@@ -98,6 +106,7 @@ pub fn all() -> Vec<PropDef> {
         stub: vec!["the destination (Sink: capacity, short writes, Interrupted, full-sink behaviour)"],
     });
     v.push(PropDef {
+        miri: None,
         id: "C07", level: "exploration", driver: "D2 deterministic executor + simulated transport + open-loop peer + scripted handlers",
         scens: vec![s("conn", d2::c07, 90_000, 3_000_000)],
         rule: "each run = one connection task Token::run over the simulated transport: 1..4 requests from a compliant open-loop client (request i+1 released after EndRequest i is in the log), noise records, a chooser-driven handler (read all/part/nothing via read or fill_buf, writes, every ExitStatus), reads of 1..n bytes or Pending and writes accepting 1..n bytes or Pending at every call, spurious polls; the decoded transport log and the handler log are compared with M-conn; distinct = distinct (skeleton, digest); non-trivial = at least one non-default scheduling alternative or transport fault (short read/write, Pending) fired",
@@ -105,6 +114,7 @@ pub fn all() -> Vec<PropDef> {
         real: REAL_ASYNC.to_vec(), stub: STUB_ASYNC.to_vec(),
     });
     v.push(PropDef {
+        miri: None,
         id: "C08", level: "exploration", driver: "D2 deterministic executor in strict wake-only mode + closed-loop peer",
         scens: vec![s("closed_loop", d2::c08, 90_000, 3_000_000)],
         rule: "each run = one connection under the closed-loop peer of the quantifier (whole records, delivered in arbitrary pieces; after each GetValues/unknown-type record everything further is withheld until the complete reply is in the transport log) with queries at every placement class, seeded grouping of records into bursts, seeded handler and write-side readiness; invariant at every suspension on the transport read: all replies for complete records already read are in the log; at quiescence: no wait-for cycle; non-trivial = at least one reply owed",
@@ -112,6 +122,7 @@ pub fn all() -> Vec<PropDef> {
         real: REAL_ASYNC.to_vec(), stub: STUB_ASYNC.to_vec(),
     });
     v.push(PropDef {
+        miri: None,
         id: "C09", level: "exploration", driver: "D2 deterministic executor + simulated transport; handler explores the read interfaces",
         scens: vec![s("readers", d2::c09, 90_000, 3_000_000)],
         rule: "each run = one connection whose handler issues a chooser-driven sequence of poll_read(len 0..70000) / poll_fill_buf+consume(k) / set_stream / writeable() calls, samples is_writeable() after every poll and probes output_stream()/set_stream() rejections under catch_unwind, while the transport returns 1..n bytes or Pending and management records arrive mid-stream with the write side accepting 1..n bytes or Pending; bytes received per stream compared with M-stream; distinct = distinct (skeleton, digest)",
@@ -119,6 +130,7 @@ pub fn all() -> Vec<PropDef> {
         real: REAL_ASYNC.to_vec(), stub: STUB_ASYNC.to_vec(),
     });
     v.push(PropDef {
+        miri: None,
         id: "C10", level: "exploration", driver: "D2 deterministic executor + simulated transport; concurrent writer sub-tasks with their own wakers",
         scens: vec![s("writers", d2::c10, 90_000, 3_000_000)],
         rule: "each run = 1..3 StreamWriters (stdout, stderr, a clone) on separately polled sub-futures plus a reader sub-future that drives reply flushing, write sizes from {0,1,7,8,9,255,256,..3000,65535,65536,70000}, flush between writes, a transport that cuts every (vectored) write anywhere or returns Pending, poll order of sub-futures chosen per step; the log must decode into complete records equal, in completion order, to the successful writes (type, id, payload, padding) with replies as whole records in between",
@@ -126,6 +138,7 @@ pub fn all() -> Vec<PropDef> {
         real: REAL_ASYNC.to_vec(), stub: STUB_ASYNC.to_vec(),
     });
     v.push(PropDef {
+        miri: None,
         id: "C11", level: "exploration", driver: "D1 (sync parsers) + D2 (connection task)",
         scens: vec![s("sync_abort", d1stream::c11_sync, 90_000, 3_000_000), s("async_abort", d2::c11, 90_000, 3_000_000), s("params_abort", d1req::c04_req, 45_000, 1_500_000)],
         rule: "sync: an own-id AbortRequest (optionally with body/padding, optionally preceded by a foreign-id abort) after a random record of the stream phase: parse reports AbortRequest, again on every later call, the header is retained and the next request parser skips it and parses the following request; async: aborts after a random stream-phase record (and aborted attempts during Params) in 1..3-request connections with handlers that read / buffered-read / do not read / are past end-of-stream and propagate or swallow the error; EndRequest records, handler-visible errors and delivered prefixes compared with M-conn",
@@ -133,6 +146,7 @@ pub fn all() -> Vec<PropDef> {
         real: REAL_ASYNC.to_vec(), stub: STUB_ASYNC.to_vec(),
     });
     v.push(PropDef {
+        miri: None,
         id: "C12", level: "fault_enumeration", driver: "D2 deterministic executor + fault-injecting transport",
         scens: vec![s("faults", d2::c12, 400, 40_000)],
         rule: "each run = one seeded scripted connection (1..2 requests, chunking, handler that propagates I/O errors) executed fault-free, then re-executed from the same choice list once per fault point: EOF at EVERY input byte offset 0..N, a read error at EVERY read-call index, a one-shot write error and a one-shot zero-length write at EVERY write-call index (stride > 1 only beyond 400 points per kind); evaluations counts outer scripts, faults_fired counts the inner runs; non-trivial = every run (each contains hundreds of fault points)",
@@ -140,6 +154,7 @@ pub fn all() -> Vec<PropDef> {
         real: REAL_ASYNC.to_vec(), stub: STUB_ASYNC.to_vec(),
     });
     v.push(PropDef {
+        miri: Some(("c14", 64, 4096)),
         id: "C14", level: "exploration", driver: "D2 deterministic executor (connection side); D3 thread scheduler (wait group)",
         scens: vec![s("conn_shutdown", d2::c14_conn, 90_000, 3_000_000), s("waitgroup_threads", d3::c14_wg, 20_000, 1_500_000), s("runner_histories", d2sema::c13, 60_000, 2_000_000), s("multi_conn_shutdown", d2sema::c14_multi, 30_000, 1_000_000)],
         rule: "connection side: one connection task plus the shutdown future as a second task; Runner::shutdown is requested as a scheduler event at a chooser-picked step (before the first read, during a preamble, during the handler, during close, between requests, while idle); checked: started requests complete incl. EndRequest, no handler begins in a poll that starts after the request, idle connections stop without a further transport read, the shutdown future is Ready only after the token is gone and is woken for it; wait group (D3): one real thread polls the shutdown future in a poll-then-wait-for-waker loop while 1..3 real threads drop 1..4 tokens, exactly one thread runs at a time and the next one is chosen by seed at every harness operation, every callback of the poller's Waker (clone/wake/drop, reached from inside AtomicWaker::register and the inner Drop) and the verif-hooks points in WaitGroupFuture::poll and WaitGroupInner::drop; Ready never before every drop has begun, never blocked forever once all drops are done; runner histories: shutdown futures of a runner and its clones polled against the set of live tokens per runner",
@@ -147,6 +162,7 @@ pub fn all() -> Vec<PropDef> {
         real: REAL_ASYNC.to_vec(), stub: STUB_ASYNC.to_vec(),
     });
     v.push(PropDef {
+        miri: Some(("c13", 64, 4096)),
         id: "C13", level: "exploration", driver: "D2 (single-threaded histories; every get_token future has its own waker)",
         scens: vec![s("histories", d2sema::c13, 180_000, 6_000_000)],
         rule: "each run = one seeded history (6..70 operations) over a runner with limit 1..4 and its clones: create a get_token future on any runner, poll one (woken ones preferred half of the time), drop a token unused, cancel a pending request, run a token to completion on a simulated connection (client closes / one request / handler panics and unwinds through Token::run), clone a runner, shut a runner down and poll shutdown futures; after every operation: live tokens <= limit, a free slot with queued requests implies one of them was woken since it last returned Pending, first-poll and woken-poll readiness clauses; distinct = distinct (skeleton, digest)",
